@@ -91,6 +91,29 @@ def _int_accepts(s):
         return False
 
 
+def attr_kind(cls, x, n):
+    """how instance x of cls reaches the attribute n of the class's own __dict__:
+    (kind, extra) — method: the bound method of x; clsmethod: bound to type(x); static: a builtin
+    bound to a fixed class (extra); const: the very object stored in the class; class: type(x);
+    computed: a C-level descriptor computes it (not modelled)"""
+    raw = vars(cls)[n]
+    v = getattr(x, n)
+    slf = getattr(v, '__self__', None) if hasattr(v, '__self__') else None
+    if hasattr(v, '__self__') and not isinstance(v, type):
+        if slf is x or (type(slf) is type(x) and not isinstance(slf, type) and slf == x
+                        and isinstance(x, (int, str, bool, type(None)))):
+            return ('method', '')
+        if isinstance(slf, type):
+            if isinstance(raw, classmethod) or type(raw).__name__ == 'classmethod_descriptor':
+                return ('clsmethod', '')
+            return ('static', slf.__name__)
+    if n == '__class__' and v is type(x):
+        return ('class', '')
+    if v is raw or (isinstance(raw, staticmethod) and v is raw.__func__):
+        return ('const', '')
+    return ('computed', '')
+
+
 def _builtin_attrs():
     samples = [(object, object()), (dict, {}), (OrderedDict, OrderedDict()), (list, []), (tuple, ()),
                (set, set()), (frozenset, frozenset()), (str, ''), (int, 0), (bool, False),
@@ -103,9 +126,113 @@ def _builtin_attrs():
                 getattr(x, n)
             except Exception:
                 continue
-            names.append(n)
+            k, extra = attr_kind(cls, x, n)
+            names.append((n, k, extra))
         out.append((cls.__name__, names))
     return out
+
+
+# ---------------------------------------------------------------- spec -> ops shapes
+def _wild(fn):
+    """source of fn with parameters renamed by position (p0, p1, …; self/cls kept) and every
+    other locally bound name replaced by `_`: insensitive to renamed locals and parameters"""
+    import copy
+    fn = copy.deepcopy(fn)
+    params = [a.arg for a in fn.args.posonlyargs + fn.args.args + fn.args.kwonlyargs]
+    if fn.args.vararg:
+        params.append(fn.args.vararg.arg)
+    if fn.args.kwarg:
+        params.append(fn.args.kwarg.arg)
+    pmap = {}
+    i = 0
+    for a in params:
+        if a in ('self', 'cls'):
+            pmap[a] = a
+        else:
+            pmap[a] = 'p%d' % i
+            i += 1
+    local = set()
+    for n in ast.walk(fn):
+        if isinstance(n, ast.Name) and isinstance(n.ctx, (ast.Store, ast.Del)):
+            local.add(n.id)
+        if isinstance(n, (ast.FunctionDef, ast.Lambda)) and n is not fn:
+            for a in n.args.args:
+                local.add(a.arg)
+    for n in ast.walk(fn):
+        if isinstance(n, ast.Name):
+            if n.id in local and n.id not in ('self', 'cls'):
+                n.id = '_'
+            elif n.id in pmap:
+                n.id = pmap[n.id]
+        if isinstance(n, ast.arg) and n.arg in pmap:
+            n.arg = pmap[n.arg]
+    # docstrings and comments do not matter
+    body = [st for st in fn.body if not (isinstance(st, ast.Expr) and isinstance(st.value, ast.Constant))]
+    return '\n'.join(ast.unparse(st) for st in body)
+
+
+def _has_all(src, needles):
+    return all(n in src for n in needles)
+
+
+def _path_init_shape(fn):
+    if fn is None:
+        return False
+    w = _wild(fn)
+    step2 = (_has_all(w, ['_ = 1', 'while _ < len(_)', '_ += 2'])
+             or 'in range(1, len(_), 2)' in w)
+    return step2 and _has_all(w, [
+        'isinstance(_, Path)', '_ = _.path_t', 'isinstance(_, TType)', '_[0] is not T',
+        "_ = _t_child(_, _[_], _[_ + 1])", "_ = _t_child(_, 'P', _)", 'self.path_t = _',
+        'self.path_t = T'])
+
+
+def _from_text_shape(fn):
+    if fn is None:
+        return False
+    w = _wild(fn)
+    return _has_all(w, ["_ = p0.split('.')", 'if PATH_STAR:',
+                        "_T_STAR if _ == '*' else _T_STARSTAR if _ == '**' else _",
+                        'return cls(*_)', '_ = cls._CACHE[PATH_STAR]', 'return _[p0]'])
+
+
+def _probes(P):
+    """what Path(...) / Path.from_text build on fixed inputs (read from the imported package)"""
+    import importlib
+    core = importlib.import_module('glom.core')
+    T, Path = core.T, core.Path
+    ok = True
+
+    def steps(t):
+        ops = t.__ops__
+        return [ops[0] is T] + [x if isinstance(x, (str, int)) else getattr(x, '__name__', repr(x)) for x in ops[1:]]
+    try:
+        got = steps(Path('a', T.b['c'], Path('d', Path(T.e)), 1).path_t)
+        ok &= got == [True, 'P', 'a', '.', 'b', '[', 'c', 'P', 'd', '.', 'e', 'P', 1]
+        ok &= steps(Path(Path('a'), 'b').path_t) == [True, 'P', 'a', 'P', 'b']
+        ok &= steps(Path(T.a, Path(), 'b').path_t) == [True, '.', 'a', 'P', 'b']
+        ok &= steps(Path().path_t) == [True]
+        saved = core.PATH_STAR
+        try:
+            core.PATH_STAR = True
+            ops = Path.from_text('a.*..**.b c').path_t.__ops__
+            ok &= [x for x in ops[1:] if isinstance(x, str)] == ['P', 'a', 'x', 'P', '', 'X', 'P', 'b c']
+            core.PATH_STAR = False
+            import warnings
+            with warnings.catch_warnings():
+                warnings.simplefilter('ignore')
+                ops = Path.from_text('a.*..**.b c').path_t.__ops__
+            ok &= list(ops[1:]) == ['P', 'a', 'P', '*', 'P', '', 'P', '**', 'P', 'b c']
+        finally:
+            core.PATH_STAR = saved
+        leaf = object()
+        ok &= core.glom({'a': {'b': leaf}}, 'a.b') is leaf
+    except Exception as e:
+        P.add('probe of Path(...) / Path.from_text crashed: %r' % (e,))
+        return False
+    if not ok:
+        P.add('Path(...) / Path.from_text do not build the expected ops on the probe inputs')
+    return ok
 
 
 def extract(ctx):
@@ -134,6 +261,49 @@ def extract(ctx):
     else:
         P.add('_get_sequence_item: not a one-statement function')
 
+    # spec -> ops
+    init_ok = _path_init_shape(find_def(tree, '__init__', cls='Path'))
+    if not init_ok:
+        P.add('Path.__init__: flattening loop not recognised')
+    ft_ok = _from_text_shape(find_def(tree, 'from_text', cls='Path'))
+    if not ft_ok:
+        P.add("Path.from_text: split('.') / PATH_STAR mapping / cls(*segs) / cache shape not recognised")
+    auto = find_def(tree, 'AUTO')
+    aw = _wild(auto) if auto is not None else ''
+    auto_ok = ('if type(p1) is str:\n    return _t_eval(p0, Path.from_text(p1).path_t, p2)' in aw
+               and 'return Path.from_text(p1).glomit(p0, p2)' in aw)
+    pg = find_def(tree, 'glomit', cls='Path')
+    auto_ok = auto_ok and pg is not None and 'return _t_eval(p0, self.path_t, p1)' in _wild(pg)
+    if not auto_ok:
+        P.add('AUTO string shortcut / Path.glomit: `_t_eval(target, Path.from_text(spec).path_t, scope)` not recognised')
+    tc = find_def(tree, '_t_child')
+    child_ok = tc is not None and _has_all(_wild(tc), ['_ = p0.__ops__', '_.__ops__ = _ + (p1, p2)', 'return _'])
+    if not child_ok:
+        P.add('_t_child: `t.__ops__ = base + (operation, arg)` not recognised')
+    pi = find_def(tree, '__init__', cls='PathAccessError')
+    pae_ok = pi is not None and _has_all(_wild(pi), ['self.exc = p0', 'self.path = p1', 'self.part_idx = p2'])
+    if not pae_ok:
+        P.add('PathAccessError.__init__ does not store exc / path / part_idx as given')
+    # every PathAccessError of _t_eval is built from the caught exception object itself
+    te = find_def(tree, '_t_eval')
+    caught_ok = False
+    if te is not None:
+        n_pae = n_good = 0
+        for h in ast.walk(te):
+            if isinstance(h, ast.ExceptHandler):
+                for c in ast.walk(h):
+                    if isinstance(c, ast.Call) and isinstance(c.func, ast.Name) and c.func.id == 'PathAccessError':
+                        n_pae += 1
+                        if (h.name and c.args and isinstance(c.args[0], ast.Name) and c.args[0].id == h.name
+                                and len(c.args) == 3 and ast.unparse(c.args[1]) == 'Path(_t)'.replace('_t', te.args.args[1].arg)):
+                            n_good += 1
+        total = sum(1 for c in ast.walk(te) if isinstance(c, ast.Call) and isinstance(c.func, ast.Name)
+                    and c.func.id == 'PathAccessError')
+        caught_ok = n_pae > 0 and n_pae == n_good == total
+    if not caught_ok:
+        P.add('_t_eval: a PathAccessError is not built as PathAccessError(<caught exception>, Path(_t), …)')
+    probes_ok = _probes(P)
+
     # interpreter tables
     signs = ('+', '-')
     zeros = [c for c in range(0x110000) if unicodedata.decimal(chr(c), None) == 0]
@@ -154,7 +324,14 @@ def extract(ctx):
               ('c01GetHandlerMemo', 'Bool', memo),
               ('c01ExactFirst', 'Bool', exact_first),
               ('c01SeqItem', 'String', seq_src),
+              ('c01PathInitShape', 'Bool', init_ok),
+              ('c01FromTextShape', 'Bool', ft_ok),
+              ('c01AutoStrShortcut', 'Bool', auto_ok),
+              ('c01TChildAppends', 'Bool', child_ok),
+              ('c01PaeStoresArgs', 'Bool', pae_ok),
+              ('c01PaeCarriesCaught', 'Bool', caught_ok),
+              ('c01PathProbesOK', 'Bool', probes_ok),
               ('c01IntSpaces', 'List Nat', spaces),
               ('c01DecimalZeros', 'List Nat', zeros),
               ('c01IntMaxStrDigits', 'Nat', maxd),
-              ('c01BuiltinAttrs', 'List (String × List String)', _builtin_attrs())])]
+              ('c01BuiltinAttrs', 'List (String × List (String × String × String))', _builtin_attrs())])]
